@@ -228,7 +228,7 @@ class Interp:
             return smt.IntC(v)
         if isinstance(v, str):
             return smt.StrC(v)
-        if isinstance(v, (SInt, SBool, SStr, SOpaque, SRef, SSetV, SSeqV)):
+        if isinstance(v, (SInt, SBool, SStr, SOpaque, SRef, SSetV, SSeqV, SArr)):
             return v.t
         if isinstance(v, (MSet, MList)):
             p = self.heap[v.oid]
